@@ -259,6 +259,23 @@ def gen(rng, nm, na):
             for _ in range(rng.choice([1, 2])):
                 c["faults"].setdefault(str(rng.randint(1, 12)), []).append(["C1", str(rng.choice([F(1, 2), F(1), F(2), F(5, 2)]))])
         cases.append(c)
+    for q in range(max(2, na // 10)):
+        # targeted: ICT-based control with ideal communication, a sensor on every line, sections of two lines whose boundary
+        # disconnector has no intelligent switch (opening it takes the manual time, which is added to the outage time of every line
+        # of the section, the healthy ones too); one fault in such a section, repaired, then quiet
+        c = ctl.gen_scenario(rng, max_lines=3, ctrl="main", nfeed=1, allow_mg=False)
+        npair = rng.choice([2, 3]); nl = 2 * npair
+        c["spec"]["feeders"] = [{"parent": [-1] + list(range(nl - 1)), "sw": [0, 0] + [1, 0] * (npair - 1), "cust": [1] * nl, "load": ["1/50"] * nl, "cost": [1] * nl}]
+        c["spec"]["tie"] = None; c["spec"]["mg"] = None
+        c["spec"]["ctrl"].pop("ict", None)
+        c["spec"]["ctrl"]["nodev"] = [f"IF0L{2 * i}a" for i in range(1, npair)]
+        if F(c["spec"]["ctrl"]["T"]) == 0:
+            c["spec"]["ctrl"]["T"] = "1"
+        dtq = F(c["dt"]); k0 = rng.randint(1, 3)
+        fl = rng.randrange(nl) if q % 2 else rng.choice([0, 1])
+        c["faults"] = {str(k0): [[f"F0L{fl}", str(rng.choice([F(2), F(3)]))]]}
+        c["n_inc"] = k0 + int((3 + 2 * F(c["spec"]["ctrl"]["T"]) + 6) / dtq) + 12
+        cases.append(c)
     return cases
 
 
